@@ -214,6 +214,6 @@ META = {
     "technique": "PAREN abstract interpretation over the three @tile builders (operator-top sets, repository precedence table); TERM: abstract execution of the three builders per header configuration (update operator x comparison kind x operand side) to the terms they store into the block/inner loops and the guard, compared in polynomial normal form with the required loop nest; access-path provenance of every header operand (block update, block check); guard/default facts for check=",
     "level": "Static decision that the tile size, the increment and the block step are embedded parenthesised wherever the @tile transform builds an operator node; that for every update operator (++ -- += -=) the block loop advances by TILE resp. TILE*INC in the original direction; "
              "that for all 12 combinations of direction, comparison kind and operand side the inner loop starts at the block iterator and runs strictly up to (down to) block iterator +/- the block loop's own step; and that with no check= argument the guard "
-             "is the user's own comparison between the iterator and the original bound, dropped only when check= evaluates to false. Together these are the loop-nest shape under which the tiles partition the original iteration sequence.",
+             "is the user's own comparison between the iterator and the original bound, dropped only when check= evaluates to false. Together these are the loop-nest shape under which the tiles partition the original iteration sequence. The trusted base of TERM is re-verified (the expr operators build the node their spelling says), and the rewrite is on every path of parser_t::parseTokens between loading and the backend transformations.",
     "note": "The final step from that loop-nest shape to exactly-once coverage is the textbook strip-mining argument and is not mechanised; overflow of xTile + STEP and non-positive tile sizes are not decided; check=false is only structurally the omission of the guard.",
 }
